@@ -297,8 +297,13 @@ def mol_view(m, stereo=True):
 def record_view(rec, fmt, stereo=True):
     from chython.containers import ReactionContainer
     if isinstance(rec, ReactionContainer):
-        return {'kind': 'rxn', 'r': [mol_view(m, stereo) for m in rec.reactants],
-                'p': [mol_view(m, stereo) for m in rec.products], 'a': [mol_view(m, stereo) for m in rec.reagents],
+        def member(m):
+            v = mol_view(m, stereo)
+            if fmt in ('rdf', 'mrv'):
+                v['mname'] = m.name.strip()     # V2000 RXN members and MRV molecules have a title slot; V3000 members have none
+            return v
+        return {'kind': 'rxn', 'r': [member(m) for m in rec.reactants],
+                'p': [member(m) for m in rec.products], 'a': [member(m) for m in rec.reagents],
                 'name': rec.name.strip(), 'meta': norm_meta(rec._meta, fmt),
                 'unparsed': 'chython_unparsed_metadata' in (rec._meta or {})}
     v = mol_view(rec, stereo)
@@ -336,7 +341,7 @@ def diff_field(d):
     if d is None:
         return None
     p = d.split(':', 1)[0]
-    for f in ('atoms', 'bonds', 'stereo', 'name', 'meta', 'kind', 'unparsed'):
+    for f in ('atoms', 'bonds', 'stereo', 'mname', 'name', 'meta', 'kind', 'unparsed'):
         if '.' + f in p:
             return f
     return 'roles' if p.startswith(('.r', '.p', '.a')) or 'len' in d else 'other'
